@@ -158,6 +158,17 @@ def expected(root):
         for g in by.values():
             if len(g) > 1:
                 groups.append(({SEC_NAME_TYPE}, g, ERR))
+        # EITHER: equally named siblings whose types are both missing but spelled differently (None next to '') -
+        # "the same type" can be read either way for two absent types; every other pair of different (name, type)
+        # pairs - case, blanks, None next to the text 'None', a separator moved between name and type - is different
+        loose = {}
+        for s in secs:
+            if not s.type:
+                loose.setdefault(s.name, []).append(s)
+        for g in loose.values():
+            if len(set((s.name, s.type) for s in g)) > 1:
+                for s in g:
+                    may.add((id(s), SEC_NAME_TYPE, ERR))
         if isinstance(c, S):
             by = {}
             for p in props:
@@ -175,6 +186,17 @@ def expected(root):
                 groups.append(({SEC_IDS, PROP_IDS}, g, ERR))
             else:
                 for o in g:
+                    may.add((id(o), SEC_IDS if isinstance(o, S) else PROP_IDS, ERR))
+    # EITHER: ids that differ as text but are the same UUID (RFC 4122 reads the hex digits case-insensitively); the
+    # public API only ever stores the canonical lower-case form, the statement does not say which comparison is meant
+    loose = {}
+    for o in objs:
+        if isinstance(o.id, str):
+            loose.setdefault(o.id.lower(), []).append(o)
+    for g in loose.values():
+        if len(set(o.id for o in g)) > 1:
+            for o in g:
+                if not isinstance(o, D):
                     may.add((id(o), SEC_IDS if isinstance(o, S) else PROP_IDS, ERR))
     return must, may, groups
 
